@@ -66,6 +66,7 @@ func (e *Engine) c9Begin(key uint64, cost int64) {
 	d.est = make(map[uint64]int64, len(kcs))
 	d.pool = map[uint64]bool{}
 	d.victims = map[uint64]bool{}
+	d.victimSeen = map[uint64]bool{}
 	for _, kc := range kcs {
 		d.resident[kc.Key] = kc.Cost
 		d.est[kc.Key] = e.api.EstimateLocked(kc.Key)
@@ -196,6 +197,14 @@ func (e *Engine) c9Done(key uint64) {
 	d := &e.dec9
 	if !d.active || d.key != key {
 		return
+	}
+	if e.plan.Cfg.Callbacks {
+		for k := range d.victims {
+			if !d.victimSeen[k] {
+				e.violate("C09", "victim-not-reported", fmt.Sprintf("key %#x was chosen as victim for newcomer %#x (added=%v) but was not reported through OnEvict before the newcomer had been dealt with", k, key, d.added), 0)
+				break
+			}
+		}
 	}
 	if !d.added && e.plan.Cfg.Callbacks && d.rejSeq == 0 {
 		e.violate("C09", "no-onreject", fmt.Sprintf("newcomer %#x was turned away but never reported through OnReject", key), 0)
@@ -562,12 +571,19 @@ func (e *Engine) guaranteedDistinct(a, b int) bool {
 	if a == b || a < 0 || b < 0 || a >= e.nkeys || b >= e.nkeys {
 		return false
 	}
-	ha, ca := e.keyHash[a], e.keyConf[a]
-	hb, cb := e.keyHash[b], e.keyConf[b]
-	if ha != hb {
+	if e.plan.Cfg.Hasher == HashDefault {
+		// The default hasher is part of the system under test: integer kinds are
+		// hashed by identity, strings and byte slices by two independent 64-bit
+		// hashes, so two different keys are never confused (whatever hashes the
+		// cache actually computed for them).
 		return true
 	}
-	return ca != 0 && cb != 0 && ca != cb
+	// custom hasher: what the run's own hash table promises
+	ka, kb := e.plan.Cfg.Keys[a], e.plan.Cfg.Keys[b]
+	if ka.Hash != kb.Hash {
+		return true
+	}
+	return ka.Conflict != 0 && kb.Conflict != 0 && ka.Conflict != kb.Conflict
 }
 
 func (e *Engine) checkC01(ops []*opRec) {
